@@ -236,7 +236,11 @@ Proof.
         [apply Hp; apply (in_iset_extend pred_dec)|apply Hc; apply (in_iset_extend fconst_dec)
         |apply Hs; apply (in_iset_extend string_dec)]; auto.
   - apply andb_true_iff in Hb, Hv. destruct Hb as [Hne Hgb]. destruct Hv as [Hvs Hgv].
+    apply andb_true_iff in Hvs. destruct Hvs as [Hvs Hnd].
     cbn [wt_formula]. rewrite map_length, Hne. cbn [andb].
+    assert (Hnd' : nodupb (map fst (map tff_of_var vs)) = true).
+    { rewrite map_map. exact Hnd. }
+    rewrite Hnd', andb_true_r.
     assert (Hup : forallb (fun v : string * tff_type => is_upper_word (fst v)) (map tff_of_var vs) = true).
     { rewrite forallb_forall in *. intros v Hv. apply in_map_iff in Hv. destruct Hv as [w [<- Hw]].
       cbn. apply upper_suffix, Hvs, Hw. }
